@@ -67,9 +67,20 @@ static tp_p		tp;
 static int		up[NTHR], running[NTHR];
 static int		nest_step = -1;	/* step whose send is issued from inside the next delivered callback */
 
+/* Pointers are selected by an if-chain over CONSTANT indices: `&tp->threads[d]` with a symbolic d would be a pointer with
+ * a symbolic offset into the pool object, and every dereference of it a byte-level extraction (10 M SAT variables). */
+static tpt_p
+thr_tpt(int t) {
+	tpt_p r = NULL;
+	for (int k = 0; k < NTHR; k ++) {
+		if (t == k)
+			r = tp_thread_get(tp, (size_t)k);
+	}
+	return (r);
+}
 static tpt_p
 dst_tpt(unsigned d) {
-	return ((d == NTHR) ? tp_thread_get_pvt(tp) : tp_thread_get(tp, d));
+	return ((d == NTHR) ? tp_thread_get_pvt(tp) : thr_tpt((int)d));
 }
 
 static void do_send(int s);
@@ -96,7 +107,7 @@ cb_log(tpt_p tpt, void *udata) {
 
 static void
 start_thread(int t) { /* what the head of tp_thread_proc does before tpt_loop: RUNNING + TLS */
-	tpt_p tpt = tp_thread_get(tp, (size_t)t);
+	tpt_p tpt = thr_tpt(t);
 	tpt->state = TP_THREAD_STATE_RUNNING;
 	v_tls[t + 1] = tpt;
 	running[t] = 1;
@@ -109,7 +120,10 @@ recv_step(int t, int pick, int spur) {
 	v_ew_budget = 1;
 	v_ew_pick = pick;
 	v_ew_spurious = spur;
-	tpt_loop(tp_thread_get(tp, (size_t)t));
+	for (int k = 0; k < NTHR; k ++) {
+		if (t == k)
+			tpt_loop(tp_thread_get(tp, (size_t)k));	/* constant pointer in each unrolled branch */
+	}
 	v_ew_spurious = 0;
 	v_cur = save;
 }
@@ -124,7 +138,7 @@ do_send(int s) {
 	int before_fail = v_n_write_fail;
 
 	if (v_cur >= 0 && !st->src_null)
-		src = tp_thread_get(tp, (size_t)v_cur);
+		src = thr_tpt(v_cur);
 	m->sent = 1;
 	m->sender = v_cur;
 	m->dst = (int)d;
@@ -173,7 +187,7 @@ harness(void) {
 	V_ASSERT(0 == tp_create(&s, &tp), "tp_create succeeds when every resource is available");
 	V_ASSERT(0 == tp_threads_create(tp, 0), "tp_threads_create");
 	for (t = 0; t < NTHR; t ++) {
-		up[t] = tpt_is_running(tp_thread_get(tp, (size_t)t));	/* STARTING unless pthread_create failed */
+		up[t] = tpt_is_running(tp_thread_get(tp, (size_t)t));	/* t is a constant after unrolling */	/* STARTING unless pthread_create failed */
 		if (up[t] && IN.started[t])
 			start_thread(t);
 	}
